@@ -558,6 +558,40 @@ func w3Variants() []*w3Variant {
 		})
 	}
 
+	// -- payment callbacks with a crafted [from], invoked directly and through
+	// a foreign contract (the forwarding helper is then the calling script hash)
+	for _, c := range []string{"alphabet", "neofs", "neofs_nd", "processing", "proxy"} {
+		c := c
+		for _, fr := range []string{"the receiving contract itself", "native GAS", "native NEO", "the committee account", "a user"} {
+			fr := fr
+			for _, via := range []string{"", "contract"} {
+				via := via
+				how := "direct invocation"
+				if via != "" {
+					how = "through a foreign contract"
+				}
+				vs = append(vs, &w3Variant{C: c, M: "onNEP17Payment", Arity: 3, Boundary: true,
+					Label: how + ", from = " + fr,
+					Build: func(w *w3World, i int) *w3Call {
+						var from util.Uint160
+						switch fr {
+						case "the receiving contract itself":
+							from = w.H[c]
+						case "native GAS":
+							from = w.gas
+						case "native NEO":
+							from = w.neo
+						case "the committee account":
+							from = w.princ("committee").Hash
+						default:
+							from = w.princ("U").Hash
+						}
+						return &w3Call{Args: []any{from, int64(1 + i%3), nil}, Princ: w3np(3), Via: via}
+					}})
+			}
+		}
+	}
+
 	// -- reputation
 	add("reputation", "put", 3, "", simple(func(w *w3World, i int) []any {
 		return []any{w.epoch(), w3Fill(33, 4), w3ID("trust", i)}
